@@ -21,7 +21,7 @@ ANY = 0xFFFFFFFF
 E_SOCKET = 6
 
 
-def run(ctx):
+def _run_own(ctx):
     ctx.level = "proof"
     have = os.path.exists(os.path.join(vlib.COQ, "Properties_C13.v"))
     proved = vlib.prove(ctx, ["Properties_C13.v"], facts=["cred", "base64"]) if have else False
@@ -188,3 +188,11 @@ def run(ctx):
     if not fails and not mism and not proved:
         ctx.violation("proof obligation no longer checks: %s" % getattr(ctx, "broken_obligation", "Properties_C13.v missing"),
                       {"obligation": getattr(ctx, "broken_obligation", "?"), "log": ctx.proof_log[-3000:]}, found_input=False)
+
+
+def run(ctx):
+    """the property's own check, then the component check of the socket I/O loops (fd.c) that every request and reply of
+    this property goes through: Properties_FD.v + correspondence FdModel ~ /repo's fd.c (tools/props/fd_common.py)"""
+    _run_own(ctx)
+    from props import fd_common
+    fd_common.fd_phase(ctx)
